@@ -173,6 +173,13 @@ def split(interp, t, sep, tg):
 
 def join(interp, sep, tg, arg):
     from . import builtins_impl as B
+    from .trusted import HexPairs
+    if isinstance(arg, HexPairs):
+        if tg == "vstr" and _lit(sep) == "":
+            r = S.Hex(arg.data)
+            interp.ctx.axiom(z3.Length(r) == 2 * z3.Length(arg.data), "|hex(s)| = 2|s|")
+            return interp.mk("vstr", r)
+        raise Unsupported("join of hex pairs with a separator")
     arg = B.container(interp, arg)
     if isinstance(arg, HList) and arg.mode == "s":
         return interp.mk(tg, JoinSeq(sep, arg.seq))
